@@ -244,6 +244,7 @@ type accum struct {
 	steps, decisions             int64
 	queries, sat, unsat, unknown int
 	solverNs                     int64
+	solverMaxNs                  int64
 	validated, valMismatch       int
 	violLines                    []string
 	knownLines                   []string
@@ -364,6 +365,8 @@ func check(id, tier string, rest []string) int {
 			"queries_unsat":                 acc.unsat,
 			"queries_unknown":               acc.unknown,
 			"solver_s":                      float64(acc.solverNs) / 1e9,
+			"solver_max_query_s":            float64(acc.solverMaxNs) / 1e9,
+			"solver_timeout_s":              float64(ts.TimeoutMs) / 1000,
 			"solver":                        solverName(solverUsed),
 			"functions_encoded_repo":        repoFns,
 			"functions_encoded_deps":        depFns,
@@ -545,6 +548,9 @@ func runUnit(id, tier string, s *spec, ts tierSpec, u unitSpec, seed int64, filt
 		acc.unsat += r.Solver.Unsat
 		acc.unknown += r.Solver.Unknown
 		acc.solverNs += r.Solver.SolverNs
+		if r.Solver.MaxNs > acc.solverMaxNs {
+			acc.solverMaxNs = r.Solver.MaxNs
+		}
 		for f, n := range r.Funcs {
 			acc.funcs[f] += n
 		}
